@@ -30,10 +30,10 @@ Proof.
 Qed.
 
 Lemma inv_check : forall W s j i, wf W = true -> Inv W s -> started (pc (jobs s j)) = true ->
-  Inv W (check W all_fixed s j i).
+  Inv W (check W all_fixed s j i) /\ stab0 s (check W all_fixed s j i).
 Proof.
   intros W s j i WF I S.
-  destruct (check_cases W s j i) as [E|(d & r' & w & Nd & C & E)]; rewrite E; auto. clear E.
+  destruct (check_cases W s j i) as [E|(d & r' & w & Nd & C & E)]; rewrite E; [split; auto; apply stab0_refl; auto|]. clear E.
   set (r := jobs s j) in *.
   pose proof (I_loc I j) as L. unfold jl in L. fold r in L.
   assert (Jn : (j < njobs W)%nat).
@@ -123,14 +123,17 @@ Proof.
   assert (H14 : forall c, In c (queue s') -> In c (queue s) \/ cb_ok s' c).
   { intros c Hc. destruct EQ as [X|X]; rewrite X in Hc; auto.
     apply in_app_or in Hc. destruct Hc as [?|[<-|[]]]; auto. right. simpl. auto. }
-  exact (@inv_update W s s' j r' WF I Jn EJ LI H1 H2 H3 H4 H5 H6 H7 H8 H9 H10 H11 H12 H13 H14).
+  assert (RET : forall r0, pc r = PReturned r0 -> pc r' = PReturned r0).
+  { intros r0 X. destruct PC as [Y|(Y&_)]; congruence. }
+  assert (LCH : launches r' = launches r \/ (true = false /\ launches r' = Datatypes.S (launches r) /\ pc r = PWoken ALockIn)) by (left; exact Al).
+  exact (@inv_update true W s s' j r' WF I Jn EJ LI H1 H2 H3 H4 RET LCH H5 H6 H7 H8 H9 H10 H11 H12 H13 H14).
 Qed.
 
 (* ------------------------------------------------------------------ steps that leave the jobs unchanged *)
 Lemma inv_frame : forall W s s', Inv W s -> jobs s' = jobs s -> unfinished s' = unfinished s ->
-  failed s' = failed s -> (forall c, In c (queue s') -> In c (queue s) \/ cb_ok s' c) -> Inv W s'.
+  failed s' = failed s -> (forall c, In c (queue s') -> In c (queue s) \/ cb_ok s' c) -> Inv W s' /\ stab0 s s'.
 Proof.
-  intros W s s' I EJ EU EF Q. destruct I as [a b c d e f g h i0 j k].
+  intros W s s' I EJ EU EF Q. split; [|apply stab0_refl; auto]. destruct I as [a b c d e f g h i0 j k].
   constructor; unfold jl, cntf in *; rewrite ?EJ, ?EU, ?EF; auto.
   intros c0 Hc. destruct (Q c0 Hc) as [X|X]; auto. specialize (k c0 X).
     destruct c0; simpl in *; rewrite ?EJ; auto.
@@ -139,12 +142,12 @@ Qed.
 Lemma in_remove_nth : forall A n (l : list A) x, In x (remove_nth n l) -> In x l.
 Proof. induction n; destruct l; simpl; intros; auto. destruct H; auto. Qed.
 
-Lemma inv_dequeue : forall W s n, Inv W s -> Inv W (s_queue s (remove_nth n (queue s))).
+Lemma inv_dequeue : forall W s n, Inv W s -> Inv W (s_queue s (remove_nth n (queue s))) /\ stab0 s (s_queue s (remove_nth n (queue s))).
 Proof.
   intros. apply inv_frame with (s := s); auto. simpl. intros c Hc. left. eapply in_remove_nth; eauto.
 Qed.
 
-Lemma inv_wait_check : forall W s, Inv W s -> Inv W (wait_check s).
+Lemma inv_wait_check : forall W s, Inv W s -> Inv W (wait_check s) /\ stab0 s (wait_check s).
 Proof.
   intros. unfold wait_check. destruct (unfinished s =? 0); apply inv_frame with (s := s); auto.
 Qed.
@@ -164,7 +167,7 @@ Proof.
 Qed.
 
 (* the job's own steps that keep its dependency statuses *)
-Lemma inv_update_own : forall W s s' j r',
+Lemma inv_update_own : forall strict W s s' j r',
   wf W = true -> Inv W s -> started (pc (jobs s j)) = true ->
   jobs s' = upd (jobs s) j r' ->
   linv (deps W j) (j_marker (spec W j)) (j_code (spec W j)) r' ->
@@ -172,19 +175,22 @@ Lemma inv_update_own : forall W s s' j r',
   (st (jobs s j) = DONE -> st r' = DONE) -> (st (jobs s j) = ERROR -> st r' = ERROR) ->
   started (pc r') = true ->
   (past_loop (pc (jobs s j)) = true -> past_loop (pc r') = true) ->
+  (forall r0, pc (jobs s j) = PReturned r0 -> pc r' = PReturned r0) ->
+  (launches r' = launches (jobs s j) \/
+   (strict = false /\ launches r' = S (launches (jobs s j)) /\ pc (jobs s j) = PWoken ALockIn)) ->
   ((st r' = READY \/ in_start (pc r') = true) -> (st (jobs s j) = READY \/ in_start (pc (jobs s j)) = true)) ->
   (launches r' = 1%nat -> launches (jobs s j) = 1%nat \/ st (jobs s j) = READY \/ in_start (pc (jobs s j)) = true) ->
   unfinished s' - unfinished s = (if counted (pc r') then 1 else 0) - (if counted (pc (jobs s j)) then 1 else 0) ->
   (forall x, In x (failed s') <->
      In x (failed s) \/ (x = j /\ past_loop (pc r') = true /\ past_loop (pc (jobs s j)) = false /\ st r' <> DONE)) ->
   (forall c, In c (queue s') -> In c (queue s) \/ cb_ok s' c) ->
-  Inv W s'.
+  Inv W s' /\ stab_gen strict s s'.
 Proof.
-  intros W s s' j r' WF I S EJ L EC EF SD SE SS SP RD LD CNT FL Q.
+  intros strict W s s' j r' WF I S EJ L EC EF SD SE SS SP RET LCH RD LD CNT FL Q.
   assert (Jn : (j < njobs W)%nat).
   { apply inv_job_lt with (s := s); auto. destruct (pc (jobs s j)); simpl in S; congruence. }
   assert (SPN : spawned (pc (jobs s j)) = true) by (destruct (pc (jobs s j)); simpl in S; try discriminate; auto).
-  apply (@inv_update W s s' j r'); auto.
+  apply (@inv_update strict W s s' j r'); auto.
   - intros _. destruct (pc r'); simpl in SS; try discriminate; auto.
   - intros _ k Hk. apply (I_sub I j k); auto.
   - intros i k _ X Y. rewrite EC in X. eapply (I_CO I j); eauto.
@@ -196,7 +202,8 @@ Qed.
 
 (* ------------------------------------------------------------------ the transitions, one by one *)
 Lemma inv_deliver : forall W s j a, wf W = true -> Inv W s -> pc (jobs s j) = PExt a ->
-  Inv W (enqueue (setjob s j (w_pc (jobs s j) (PWoken a))) (CStep j)).
+  Inv W (enqueue (setjob s j (w_pc (jobs s j) (PWoken a))) (CStep j)) /\
+  stab0 s (enqueue (setjob s j (w_pc (jobs s j) (PWoken a))) (CStep j)).
 Proof.
   intros W s j a WF I P. set (r := jobs s j) in *.
   set (r' := w_pc r (PWoken a)). set (s' := enqueue (setjob s j r') (CStep j)).
@@ -219,11 +226,13 @@ Proof.
   { intros x. split; auto. intros [X|(_ & X & Y & _)]; auto. rewrite P in Y. destruct a; simpl in *; congruence. }
   assert (Q : forall c, In c (queue s') -> In c (queue s) \/ cb_ok s' c).
   { intros c Hc. apply in_app_or in Hc. destruct Hc as [X|[<-|[]]]; auto. right. simpl. auto. }
-  exact (@inv_update_own W s s' j r' WF I S EJ L EC EF SD SE SS SP RD LD CNT FL Q).
+  assert (RET : forall r0, pc r = PReturned r0 -> pc r' = PReturned r0) by (intros r0 X; rewrite P in X; discriminate).
+  assert (LCH : launches r' = launches r \/ (true = false /\ launches r' = Datatypes.S (launches r) /\ pc r = PWoken ALockIn)) by (left; reflexivity).
+  exact (@inv_update_own true W s s' j r' WF I S EJ L EC EF SD SE SS SP RET LCH RD LD CNT FL Q).
 Qed.
 
 Lemma inv_lockoutrun : forall W s j, wf W = true -> Inv W s -> pc (jobs s j) = PWoken ALockOutRun ->
-  Inv W (setjob s j (w_pc (jobs s j) (PExt AProc))).
+  Inv W (setjob s j (w_pc (jobs s j) (PExt AProc))) /\ stab0 s (setjob s j (w_pc (jobs s j) (PExt AProc))).
 Proof.
   intros W s j WF I P. set (r := jobs s j) in *.
   set (r' := w_pc r (PExt AProc)). set (s' := setjob s j r').
@@ -245,7 +254,9 @@ Proof.
      In x (failed s) \/ (x = j /\ past_loop (pc r') = true /\ past_loop (pc r) = false /\ st r' <> DONE)).
   { intros x. split; auto. intros [X|(_ & X & Y & _)]; auto. discriminate. }
   assert (Q : forall c, In c (queue s') -> In c (queue s) \/ cb_ok s' c) by (intros c Hc; auto).
-  exact (@inv_update_own W s s' j r' WF I S EJ L EC EF SD SE SS SP RD LD CNT FL Q).
+  assert (RET : forall r0, pc r = PReturned r0 -> pc r' = PReturned r0) by (intros r0 X; rewrite P in X; discriminate).
+  assert (LCH : launches r' = launches r \/ (true = false /\ launches r' = Datatypes.S (launches r) /\ pc r = PWoken ALockIn)) by (left; reflexivity).
+  exact (@inv_update_own true W s s' j r' WF I S EJ L EC EF SD SE SS SP RET LCH RD LD CNT FL Q).
 Qed.
 
 (* facts about a job whose coroutine is outside aio_start and before the end of its loop *)
@@ -274,7 +285,7 @@ Lemma inv_commit_loop : forall W s j r2 p,
   cur r2 = cur (jobs s j) -> fdep r2 = fdep (jobs s j) -> launches r2 = launches (jobs s j) ->
   (st (jobs s j) = DONE -> st r2 = DONE) -> (st (jobs s j) = ERROR -> st r2 = ERROR) ->
   (st r2 = READY -> st (jobs s j) = READY \/ in_start (pc (jobs s j)) = true) ->
-  Inv W (commit s j p).
+  Inv W (commit s j p) /\ stab0 s (commit s j p).
 Proof.
   intros W s j r2 p WF I S NP LI (S_st & S_cur & S_uns & S_held & S_fdep & S_l & S_snd & S_pc) EC2 EF2 EL2 SD2 SE2 RD2.
   set (r := jobs s j) in *. set (r' := fst p) in *. set (s' := commit s j p).
@@ -304,11 +315,13 @@ Proof.
       assert (false = true); [|discriminate]. apply S_snd. split; auto. congruence. }
   assert (Q : forall c, In c (queue s') -> In c (queue s) \/ cb_ok s' c).
   { intros c Hc. left. unfold s', commit in Hc. destruct (snd p); simpl in Hc; auto. }
-  exact (@inv_update_own W s s' j r' WF I S EJ LI EC EF SD SE SS SP RD LD CNT FL Q).
+  assert (RET : forall r0, pc r = PReturned r0 -> pc r' = PReturned r0) by (intros r0 X; rewrite X in NP; discriminate).
+  assert (LCH : launches r' = launches r \/ (true = false /\ launches r' = Datatypes.S (launches r) /\ pc r = PWoken ALockIn)) by (left; congruence).
+  exact (@inv_update_own true W s s' j r' WF I S EJ LI EC EF SD SE SS SP RET LCH RD LD CNT FL Q).
 Qed.
 
 Lemma inv_after_ready : forall W s j, wf W = true -> Inv W s -> pc (jobs s j) = PWokenReady ->
-  Inv W (commit s j (after_ready_l (jobs s j))).
+  Inv W (commit s j (after_ready_l (jobs s j))) /\ stab0 s (commit s j (after_ready_l (jobs s j))).
 Proof.
   intros W s j WF I P. set (r := jobs s j) in *.
   pose proof (I_loc I j) as L. unfold jl in L. fold r in L.
@@ -333,7 +346,8 @@ Qed.
 Lemma dep_status_ok : forall s k, dep_status s (DJob k) = DOK -> st (jobs s k) = DONE.
 Proof. intros s k X. simpl in X. destruct (st (jobs s k)); try discriminate; auto. Qed.
 
-Lemma inv_spawn : forall W s j, wf W = true -> Inv W s -> pc (jobs s j) = PSpawned -> Inv W (run_spawn W all_fixed s j).
+Lemma inv_spawn : forall W s j, wf W = true -> Inv W s -> pc (jobs s j) = PSpawned ->
+  Inv W (run_spawn W all_fixed s j) /\ stab0 s (run_spawn W all_fixed s j).
 Proof.
   intros W s j WF I P. unfold run_spawn. simpl fx3.
   set (r := jobs s j) in *. set (news := map (dep_status s) (deps W j)).
@@ -385,14 +399,16 @@ Proof.
       assert (false = true); [|discriminate]. apply SND. split; auto. }
   assert (Q : forall c, In c (queue s') -> In c (queue s) \/ cb_ok s' c).
   { intros c Hc. left. unfold s', commit in Hc. destruct (snd p); simpl in Hc; auto. }
-  exact (@inv_update W s s' j r' WF I Jn EJ LI SD SE SS SP SW SUB CO CF RD FD LD CNT FL Q).
+  assert (RET : forall r0, pc r = PReturned r0 -> pc r' = PReturned r0) by (intros r0 X; rewrite P in X; discriminate).
+  assert (LCH : launches r' = launches r \/ (true = false /\ launches r' = Datatypes.S (launches r) /\ pc r = PWoken ALockIn)) by (left; congruence).
+  exact (@inv_update true W s s' j r' WF I Jn EJ LI SD SE SS SP RET LCH SW SUB CO CF RD FD LD CNT FL Q).
 Qed.
 
 Lemma release_all_jobs : forall W s j, jobs (release_all W s j) = upd (jobs s) j (w_held (jobs s j) []).
 Proof. reflexivity. Qed.
 
 Lemma inv_release : forall W s j, wf W = true -> Inv W s -> started (pc (jobs s j)) = true ->
-  Inv W (release_all W s j).
+  Inv W (release_all W s j) /\ stab0 s (release_all W s j).
 Proof.
   intros W s j WF I S. set (r := jobs s j) in *.
   set (r' := w_held r []). set (s' := release_all W s j).
@@ -416,15 +432,17 @@ Proof.
     unfold release_notes in X. apply in_flat_map in X. destruct X as (tc & _ & X).
     apply in_map_iff in X. destruct X as (q & <- & X). apply dependents_started in X. simpl.
     unfold upd. destruct (Nat.eqb (fst q) j) eqn:E; auto; apply Nat.eqb_eq in E; rewrite E in X; exact X. }
-  exact (@inv_update_own W s s' j r' WF I S EJ L EC EF SD SE SS SP RD LD CNT FL Q).
+  assert (RET : forall r0, pc r = PReturned r0 -> pc r' = PReturned r0) by (auto).
+  assert (LCH : launches r' = launches r \/ (true = false /\ launches r' = Datatypes.S (launches r) /\ pc r = PWoken ALockIn)) by (left; reflexivity).
+  exact (@inv_update_own true W s s' j r' WF I S EJ L EC EF SD SE SS SP RET LCH RD LD CNT FL Q).
 Qed.
 
 Lemma inv_abort_return : forall W s j, wf W = true -> Inv W s -> pc (jobs s j) = PWoken ALockOutAbort ->
-  Inv W (abort_return W all_fixed s j).
+  Inv W (abort_return W all_fixed s j) /\ stab0 s (abort_return W all_fixed s j).
 Proof.
   intros W s j WF I P. unfold abort_return. simpl fx4.
   assert (S : started (pc (jobs s j)) = true) by (rewrite P; auto).
-  pose proof (inv_release j WF I S) as I1.
+  destruct (inv_release j WF I S) as (I1 & ST1).
   set (s1 := release_all W s j) in *.
   assert (E1 : jobs s1 j = w_held (jobs s j) []) by (unfold s1; rewrite release_all_jobs; apply upd_same).
   set (r1 := jobs s1 j) in *.
@@ -437,6 +455,8 @@ Proof.
   { unfold r2. destruct (uns r1 =? 0); [|auto].
     destruct (set_event_l (w_st r1 READY)) as [x w] eqn:SE. apply set_event_l_spec in SE. simpl in *. intuition. }
   destruct R2 as (C2 & F2 & LL2).
+  cut (Inv W (commit s1 j (abort_l true r1)) /\ stab0 s1 (commit s1 j (abort_l true r1))).
+  { intros (X & Y). split; auto. eapply stab0_trans; eauto. }
   apply (@inv_commit_loop W s1 j r2 (abort_l true r1)); auto; fold r1.
   - rewrite P1; auto.
   - rewrite P1; auto.
@@ -446,11 +466,11 @@ Proof.
 Qed.
 
 Lemma inv_proc_return : forall W s j, wf W = true -> Inv W s -> pc (jobs s j) = PWoken AProc ->
-  Inv W (proc_return W s j).
+  Inv W (proc_return W s j) /\ stab0 s (proc_return W s j).
 Proof.
   intros W s j WF I P. unfold proc_return.
   assert (S : started (pc (jobs s j)) = true) by (rewrite P; auto).
-  pose proof (inv_release j WF I S) as I1.
+  destruct (inv_release j WF I S) as (I1 & ST1).
   set (s1 := release_all W s j) in *.
   assert (E1 : jobs s1 j = w_held (jobs s j) []) by (unfold s1; rewrite release_all_jobs; apply upd_same).
   set (r1 := jobs s1 j) in *.
@@ -458,6 +478,8 @@ Proof.
   assert (H1 : held r1 = []) by (rewrite E1; reflexivity).
   pose proof (I_loc I1 j) as L1. unfold jl in L1. fold r1 in L1.
   destruct (@proc_l_ok _ _ _ r1 L1 P1 H1) as (LI & SH & _).
+  cut (Inv W (commit s1 j (proc_l (j_code (spec W j)) r1)) /\ stab0 s1 (commit s1 j (proc_l (j_code (spec W j)) r1))).
+  { intros (X & Y). split; auto. eapply stab0_trans; eauto. }
   apply (@inv_commit_loop W s1 j (w_st r1 (code_state (j_code (spec W j)))) (proc_l (j_code (spec W j)) r1)); auto; fold r1.
   - rewrite P1; auto.
   - rewrite P1; auto.
@@ -467,7 +489,7 @@ Proof.
 Qed.
 
 Lemma inv_done_return : forall W s j, wf W = true -> Inv W s -> pc (jobs s j) = PWoken ADoneH ->
-  Inv W (done_return W s j).
+  Inv W (done_return W s j) /\ stab0 s (done_return W s j).
 Proof.
   intros W s j WF I P. set (r := jobs s j) in *.
   set (r' := w_pc r (PReturned (st r))). set (s' := done_return W s j).
@@ -499,7 +521,9 @@ Proof.
       apply in_app_or in X. destruct X as [X|[<-|[]]]; auto. right. simpl. auto.
     - right. apply in_map_iff in X. destruct X as (q & <- & X). apply dependents_started in X.
       rewrite JS in X. simpl in X. change (started (pc (jobs s' (fst q))) = true). rewrite EJ. unfold upd. destruct (Nat.eqb (fst q) j); auto. }
-  exact (@inv_update_own W s s' j r' WF I S EJ L EC EF SD SE SS SP RD LD CNT FL Q).
+  assert (RET : forall r0, pc r = PReturned r0 -> pc r' = PReturned r0) by (intros r0 X; rewrite P in X; discriminate).
+  assert (LCH : launches r' = launches r \/ (true = false /\ launches r' = Datatypes.S (launches r) /\ pc r = PWoken ALockIn)) by (left; reflexivity).
+  exact (@inv_update_own true W s s' j r' WF I S EJ L EC EF SD SE SS SP RET LCH RD LD CNT FL Q).
 Qed.
 
 Lemma check_pc : forall W s j i, pc (jobs s j) <> PAwaitReady ->
@@ -511,7 +535,7 @@ Proof.
 Qed.
 
 Lemma inv_start_body : forall W s j, wf W = true -> Inv W s -> pc (jobs s j) = PWoken ALockIn ->
-  Inv W (start_body W all_fixed s j).
+  Inv W (start_body W all_fixed s j) /\ stab s (start_body W all_fixed s j).
 Proof.
   intros W s j WF I P. unfold start_body. set (r := jobs s j) in *.
   pose proof (I_loc I j) as L0. unfold jl in L0. fold r in L0.
@@ -520,7 +544,7 @@ Proof.
   destruct (acquire_l (avail s) (held r) (deps W j) 0) as [[av hd] [i|]] eqn:ACQ.
   - (* aborted start *)
     set (ra := w_held r hd). set (s1 := s_avail (setjob s j ra) av).
-    assert (I1 : Inv W s1).
+    assert (I1x : Inv W s1 /\ stab0 s s1).
     { assert (EJ : jobs s1 = upd (jobs s) j ra) by reflexivity.
       assert (L : linv (deps W j) (j_marker (spec W j)) (j_code (spec W j)) ra) by (apply linv_held; auto).
       assert (EC : cur ra = cur r) by reflexivity.
@@ -537,10 +561,13 @@ Proof.
          In x (failed s) \/ (x = j /\ past_loop (pc ra) = true /\ past_loop (pc r) = false /\ st ra <> DONE)).
       { intros x. split; auto. intros [X|(_ & X & Y & _)]; auto. simpl in X. congruence. }
       assert (Q : forall c, In c (queue s1) -> In c (queue s) \/ cb_ok s1 c) by (intros c Hc; auto).
-      exact (@inv_update_own W s s1 j ra WF I S EJ L EC EF SD SE SS SP RD LD CNT FL Q). }
+      assert (RET : forall r0, pc r = PReturned r0 -> pc ra = PReturned r0) by auto.
+      assert (LCH : launches ra = launches r \/ (true = false /\ launches ra = Datatypes.S (launches r) /\ pc r = PWoken ALockIn)) by (left; reflexivity).
+      exact (@inv_update_own true W s s1 j ra WF I S EJ L EC EF SD SE SS SP RET LCH RD LD CNT FL Q). }
+    destruct I1x as (I1 & ST1).
     assert (P1 : pc (jobs s1 j) = PWoken ALockIn) by (simpl; rewrite upd_same; exact P).
     assert (S1 : started (pc (jobs s1 j)) = true) by (rewrite P1; auto).
-    pose proof (inv_check j i WF I1 S1) as I2.
+    destruct (inv_check j i WF I1 S1) as (I2 & ST2).
     assert (P2 : pc (jobs (check W all_fixed s1 j i) j) = PWoken ALockIn).
     { rewrite check_pc; auto. rewrite P1. discriminate. }
     set (s2 := check W all_fixed s1 j i) in *. set (r2 := jobs s2 j) in *.
@@ -563,9 +590,12 @@ Proof.
        In x (failed s2) \/ (x = j /\ past_loop (pc r') = true /\ past_loop (pc r2) = false /\ st r' <> DONE)).
     { intros x. split; auto. intros [X|(_ & X & _)]; auto. discriminate. }
     assert (Q : forall c, In c (queue s') -> In c (queue s2) \/ cb_ok s' c) by (intros c Hc; auto).
-    exact (@inv_update_own W s2 s' j r' WF I2 S2 EJ L EC EF SD SE SS SP RD LD CNT FL Q).
+    assert (RET : forall r0, pc r2 = PReturned r0 -> pc r' = PReturned r0) by (intros r0 X; rewrite P2 in X; discriminate).
+    assert (LCH : launches r' = launches r2 \/ (true = false /\ launches r' = Datatypes.S (launches r2) /\ pc r2 = PWoken ALockIn)) by (left; reflexivity).
+    destruct (@inv_update_own true W s2 s' j r' WF I2 S2 EJ L EC EF SD SE SS SP RET LCH RD LD CNT FL Q) as (I3 & ST3).
+    split; auto. apply stab0_stab. eapply stab0_trans; [|exact ST3]. eapply stab0_trans; eauto.
   - (* launch *)
-    set (r' := w_pc (w_st (w_launches (w_held r hd) (S (launches (w_held r hd)))) RUNNING) (PExt ALockOutRun)).
+    set (r' := w_pc (w_st (w_launches (w_held r hd) (Datatypes.S (launches (w_held r hd)))) RUNNING) (PExt ALockOutRun)).
     set (s' := s_avail (setjob s j r') av).
     assert (EJ : jobs s' = upd (jobs s) j r') by reflexivity.
     assert (L : linv (deps W j) (j_marker (spec W j)) (j_code (spec W j)) r') by (apply linv_launch; auto).
@@ -585,5 +615,148 @@ Proof.
        In x (failed s) \/ (x = j /\ past_loop (pc r') = true /\ past_loop (pc r) = false /\ st r' <> DONE)).
     { intros x. split; auto. intros [X|(_ & X & _)]; auto. discriminate. }
     assert (Q : forall c, In c (queue s') -> In c (queue s) \/ cb_ok s' c) by (intros c Hc; auto).
-    exact (@inv_update_own W s s' j r' WF I S EJ L EC EF SD SE SS SP RD LD CNT FL Q).
+    assert (RET : forall r0, pc r = PReturned r0 -> pc r' = PReturned r0) by (intros r0 X; rewrite P in X; discriminate).
+  assert (LCH : launches r' = launches r \/ (false = false /\ launches r' = Datatypes.S (launches r) /\ pc r = PWoken ALockIn)) by (right; repeat split; auto).
+    exact (@inv_update_own false W s s' j r' WF I S EJ L EC EF SD SE SS SP RET LCH RD LD CNT FL Q).
 Qed.
+
+Lemma inv_submit_pc : forall W s s' j p',
+  wf W = true -> Inv W s -> (j < njobs W)%nat -> pc (jobs s j) = PNot ->
+  (p' = PSpawned \/ exists k, p' = PDup k) ->
+  forallb (dep_submitted s) (deps W j) = true ->
+  jobs s' = upd (jobs s) j (w_pc (jobs s j) p') ->
+  unfinished s' = unfinished s + (if counted p' then 1 else 0) ->
+  failed s' = failed s ->
+  (forall c, In c (queue s') -> In c (queue s) \/ c = CSpawn j) ->
+  Inv W s' /\ stab0 s s'.
+Proof.
+  intros W s s' j p' WF I Jn P HP FS EJ EU EF EQ. set (r := jobs s j) in *. set (r' := w_pc r p').
+  pose proof (I_loc I j) as L0. unfold jl in L0. fold r in L0.
+  assert (NS : started (pc r) = false) by (rewrite P; auto).
+  destruct (l_un L0 NS) as (Ul & Uh & Us & Uf & Uc & Uu).
+  assert (NS' : started p' = false) by (destruct HP as [->|(k & ->)]; auto).
+  assert (L : linv (deps W j) (j_marker (spec W j)) (j_code (spec W j)) r').
+  { destruct HP as [->|(k & ->)]; [apply linv_spawned|apply linv_dup]; auto. }
+  assert (SD : st r = DONE -> st r' = DONE) by auto.
+  assert (SE : st r = ERROR -> st r' = ERROR) by auto.
+  assert (SS : started (pc r) = true -> started (pc r') = true) by (rewrite NS; discriminate).
+  assert (SP : past_loop (pc r) = true -> past_loop (pc r') = true) by (rewrite P; discriminate).
+  assert (SW : spawned (pc r) = true -> spawned (pc r') = true) by (rewrite P; discriminate).
+  assert (SUB : spawned (pc r') = true -> forall k, In (DJob k) (deps W j) -> spawned (pc (jobs s k)) = true).
+  { intros _ k Hk. rewrite forallb_forall in FS. apply (FS _ Hk). }
+  assert (CO : forall i k, started (pc r') = true -> nth_error (cur r') i = Some DOK ->
+            nth_error (deps W j) i = Some (DJob k) -> st (jobs s k) = DONE).
+  { simpl. rewrite NS'. discriminate. }
+  assert (CF : forall i, started (pc r') = true -> nth_error (cur r') i = Some DFAIL ->
+            exists k, nth_error (deps W j) i = Some (DJob k) /\ st (jobs s k) = ERROR).
+  { simpl. rewrite NS'. discriminate. }
+  assert (RD : (st r' = READY \/ in_start (pc r') = true) -> forall k, In (DJob k) (deps W j) -> st (jobs s k) = DONE).
+  { simpl. intros [X|X]; [congruence|]. destruct HP as [->|(k & ->)]; discriminate. }
+  assert (FD : fdep r' = true -> exists k, In (DJob k) (deps W j) /\ st (jobs s k) = ERROR) by (simpl; congruence).
+  assert (LD : launches r' = 1%nat -> forall k, In (DJob k) (deps W j) -> st (jobs s k) = DONE) by (simpl; congruence).
+  assert (CNT : unfinished s' - unfinished s = (if counted (pc r') then 1 else 0) - (if counted (pc r) then 1 else 0)).
+  { rewrite EU, P. simpl. clear. destruct (counted p'); lia. }
+  assert (FL : forall x, In x (failed s') <->
+     In x (failed s) \/ (x = j /\ past_loop (pc r') = true /\ past_loop (pc r) = false /\ st r' <> DONE)).
+  { intros x. rewrite EF. split; auto. intros [X|(_ & X & _)]; auto. simpl in X.
+    destruct HP as [->|(k & ->)]; discriminate. }
+  assert (Q : forall c, In c (queue s') -> In c (queue s) \/ cb_ok s' c).
+  { intros c Hc. destruct (EQ c Hc) as [X| ->]; auto. right. simpl. auto. }
+  assert (RET : forall r0, pc r = PReturned r0 -> pc r' = PReturned r0) by (intros r0 X; rewrite P in X; discriminate).
+  assert (LCH : launches r' = launches r \/ (true = false /\ launches r' = Datatypes.S (launches r) /\ pc r = PWoken ALockIn)) by (left; reflexivity).
+  exact (@inv_update true W s s' j r' WF I Jn EJ L SD SE SS SP RET LCH SW SUB CO CF RD FD LD CNT FL Q).
+Qed.
+
+Lemma inv_submit : forall W s j, wf W = true -> Inv W s -> (j < njobs W)%nat -> pc (jobs s j) = PNot ->
+  forallb (dep_submitted s) (deps W j) = true -> Inv W (submit W all_fixed s j) /\ stab0 s (submit W all_fixed s j).
+Proof.
+  intros W s j WF I Jn P FS. unfold submit. simpl fx2.
+  assert (SPN : forall s0, jobs s0 = jobs s -> unfinished s0 = unfinished s + 1 -> failed s0 = failed s -> queue s0 = queue s ->
+            Inv W (enqueue (setjob s0 j (w_pc (jobs s0 j) PSpawned)) (CSpawn j)) /\
+            stab0 s (enqueue (setjob s0 j (w_pc (jobs s0 j) PSpawned)) (CSpawn j))).
+  { intros s0 E1 E2 E3 E4. apply (@inv_submit_pc W s _ j PSpawned); auto; simpl; rewrite ?E1, ?E2, ?E3, ?E4; auto.
+    intros c Hc. apply in_app_or in Hc. destruct Hc as [X|[<-|[]]]; auto. }
+  destruct (reg s (j_ident (spec W j))) as [k|].
+  - destruct (st (jobs s k)) eqn:SK;
+      try (apply (@inv_submit_pc W s _ j (PDup k)); eauto; simpl; auto; lia).
+    apply SPN; auto.
+  - apply SPN; auto.
+Qed.
+
+(* ------------------------------------------------------------------ every transition preserves the invariant *)
+Lemma inv_init : forall W, Inv W (init W).
+Proof.
+  intros W. constructor; simpl.
+  - intros x. apply linv_jst0.
+  - auto.
+  - intros x i k H; discriminate.
+  - intros x i H; discriminate.
+  - intros x k [X|X]; discriminate.
+  - intros; discriminate.
+  - intros; discriminate.
+  - intros; discriminate.
+  - unfold cntf. simpl. induction (seq 0 (njobs W)); simpl; auto.
+  - intros x. split; [contradiction|]. intros (X & _). discriminate.
+  - contradiction.
+Qed.
+
+Lemma stab_jobs_eq : forall b s1 s2 s3, jobs s2 = jobs s1 -> stab_gen b s2 s3 -> stab_gen b s1 s3.
+Proof. intros b s1 s2 s3 E H k. rewrite <- E. apply H. Qed.
+
+Lemma ext_run_cb : forall W s c, wf W = true -> Inv W s -> cb_ok s c ->
+  Inv W (run_cb W all_fixed s c) /\ stab s (run_cb W all_fixed s c).
+Proof.
+  intros W s c WF I OK.
+  assert (R : Inv W s /\ stab s s) by (split; auto; apply stab0_stab, stab0_refl; auto).
+  assert (Z : forall s', Inv W s' /\ stab0 s s' -> Inv W s' /\ stab s s').
+  { intros s' (X & Y). split; auto. apply stab0_stab; auto. }
+  destruct c as [j|j|j i|j i| |]; simpl.
+  - destruct (pc (jobs s j)) eqn:P; auto. apply Z, inv_spawn; auto.
+  - unfold run_step. destruct (pc (jobs s j)) eqn:P; auto.
+    + apply Z, inv_after_ready; auto.
+    + destruct a.
+      * apply inv_start_body; auto.
+      * apply Z, inv_abort_return; auto.
+      * apply Z, inv_lockoutrun; auto.
+      * apply Z, inv_proc_return; auto.
+      * apply Z, inv_done_return; auto.
+  - apply Z, inv_check; auto.
+  - destruct (nth_error (deps W j) i) as [[k|t c]|]; auto.
+    destruct (0 <? avail s t)%nat; auto. apply Z, inv_check; auto.
+  - destruct (wst s); auto; apply Z, inv_wait_check; auto.
+  - destruct (wst s); auto; apply Z, inv_wait_check; auto.
+Qed.
+
+Theorem ext_step : forall W s l s', wf W = true -> Inv W s -> step W s l = Some s' -> Inv W s' /\ stab s s'.
+Proof.
+  intros W s l s' WF I H.
+  assert (Z : forall s', Inv W s' /\ stab0 s s' -> Inv W s' /\ stab s s').
+  { intros s0 (X & Y). split; auto. apply stab0_stab; auto. }
+  unfold step in H. destruct l as [j|n|j|]; simpl in H.
+  - destruct ((j <? njobs W)%nat && match pc (jobs s j) with PNot => true | _ => false end
+              && forallb (dep_submitted s) (deps W j)) eqn:E; [|discriminate].
+    inversion H; subst s'. apply andb_true_iff in E. destruct E as (E & E3). apply andb_true_iff in E. destruct E as (E1 & E2).
+    apply Z, inv_submit; auto. apply Nat.ltb_lt; auto. destruct (pc (jobs s j)); try discriminate; auto.
+  - destruct (nth_error (queue s) n) as [c|] eqn:E; [|discriminate]. inversion H; subst s'.
+    destruct (@inv_dequeue W s n I) as (I0 & _).
+    destruct (@ext_run_cb W (s_queue s (remove_nth n (queue s))) c WF I0) as (X & Y).
+    { pose proof (I_q I c (nth_error_In _ _ E)) as X. destruct c; simpl in *; auto. }
+    split; auto.
+  - destruct (pc (jobs s j)) eqn:P; try discriminate. inversion H; subst s'. apply Z, inv_deliver; auto.
+  - destruct (wst s); try discriminate; inversion H; subst s'; apply Z, inv_frame with (s := s); auto;
+      simpl; intros c Hc; apply in_app_or in Hc; destruct Hc as [X|[<-|[]]]; auto; right; simpl; auto.
+Qed.
+
+Theorem inv_step : forall W s l s', wf W = true -> Inv W s -> step W s l = Some s' -> Inv W s'.
+Proof. intros. eapply ext_step; eauto. Qed.
+
+Theorem inv_steps : forall W ls s s', wf W = true -> Inv W s -> steps W s ls = Some s' -> Inv W s'.
+Proof.
+  intros W ls. induction ls as [|l ls IH]; simpl; intros s s' WF I H.
+  - inversion H; subst; auto.
+  - unfold steps in H. simpl in H. destruct (step_gen W all_fixed s l) as [s1|] eqn:E; [|discriminate].
+    apply (IH s1 s'); auto. eapply inv_step; eauto.
+Qed.
+
+Theorem inv_reachable : forall W ls s, wf W = true -> steps W (init W) ls = Some s -> Inv W s.
+Proof. intros. eapply inv_steps; eauto. apply inv_init. Qed.
